@@ -164,6 +164,46 @@ for _v in (1, 2):
     make_shape_limit(_v)
 
 
+@cond('C07.shape.empty-result', quick=120,
+      bounds='result sets without rows: an empty table, a WHERE condition that is never true, LIMIT 0, a HAVING condition that rejects '
+             'every group; for a plain, an aggregate, a wildcard and a subquery statement, through Connection.execute and through a '
+             're-used cursor: the description still lists exactly the SELECT targets, in order',
+      symbolic='(none)', enumerated='way of being empty, statement form, cursor re-use',
+      params={'why': int, 'form': int, 'reuse': bool})
+def shape_empty_result(why, form, reuse):
+    why, form = enum_int(why, 0, 3), enum_int(form, 0, 3)
+    rows = [] if why == 0 else [(1, 2, 0), (None, 3, 1)]
+    never = ast.And([ast.IsNull(col('a')), ast.IsNotNull(col('a'))])
+    where = never if why == 1 else None
+    limit = 0 if why == 2 else None
+    having = ast.Less(func('count', ast.Asterisk()), const(0)) if why == 3 else None
+    if why == 3 and form != 1:
+        assume(False)
+    if form == 0:
+        stmt, names = sel([target(col('b')), target(ast.Add(col('a'), col('b')), 's'), target(col('a'))], 't', where=where, limit=limit,
+                          order_by=[ast.OrderBy(col('k'), ast.Ordering.ASC)]), ['b', 's', 'a']
+    elif form == 1:
+        stmt, names = sel([target(col('k')), target(func('sum', col('a')), 's')], 't', where=where, limit=limit,
+                          group_by=ast.GroupBy([col('k'), ast.IsNull(col('b'))], having)), ['k', 's']
+    elif form == 2:
+        stmt, names = sel(ast.Asterisk(), 't', where=where, limit=limit), ['a', 'b', 'k']
+    else:
+        inner = sel([target(col('b'), 'y'), target(col('a'), 'x')], 't', where=where, limit=limit)
+        stmt, names = sel(ast.Asterisk(), from_clause=inner), ['y', 'x']
+    conn = connect(t=HTable('t', COLUMNS, rows))
+    cur = conn.cursor()
+    if reuse:
+        cur.execute(sel([target(col('a'))], 't'))      # an earlier statement on the same cursor
+    cur.execute(stmt)
+    if cur.description is None:
+        return 'no-description-for-an-empty-result'
+    if [c.name for c in cur.description] != names:
+        return 'names'
+    if cur.fetchall() != []:
+        return 'rows'
+    return 'ok'
+
+
 @cond('C07.shape.duplicates', quick=120,
       bounds='2 rows; SELECT a, a, b AS a, a + 1 AS b: duplicate names are allowed and preserved, positions keep their own values',
       symbolic='cells', params=_params())
